@@ -128,6 +128,97 @@ def _rt_task(item):
     return (kind + "/" + arg, True, cases, trips, skipped, bad, None)
 
 
+def rule_decl_refix(chk, prefix="C04.refix/decl", crate="rssl_hlsl"):
+    """Declarations as a fixpoint (exportmodel.DeclRoundTrip): storage class, precise, input and interpolation modifier of
+    every local / global / parameter declaration survive export and re-reading by the typer. For the MSL exporter (whose
+    text the front end does not read) only the local storage class is looked at: `static` is printed iff the local is static."""
+    import exportmodel as XM
+    f = chk.facts
+    d = XM.DeclRoundTrip(f, crate)
+    hl = crate == "rssl_hlsl"
+    need = [d.gen_local] + ([d.gen_global, d.gen_param, d.parse_local, d.parse_global, d.parse_input, d.parse_interp] if hl else [])
+    if not all(need):
+        chk.note("%s: exporter / typer declaration functions not found" % prefix)
+        return False
+    n = 0
+
+    def unread(r):
+        return isinstance(r, tuple) and r and r[0] == "unreadable"
+    locs = {}
+    for st in (f.variants("LocalStorage", "rssl_ir") or []):
+        bad = None
+        for pr in (False, True):
+            for c in (False, True):
+                r = d.local(st, pr, c)
+                what = "a %s%s%s local" % ("static " if st == "Static" else "", "precise " if pr else "", "const " if c else "")
+                if unread(r) or (r[0] == "Ok" and hl and unread(r[2])):
+                    chk.unreadable(prefix + "/local/readable", "generate_variable_definition / parse_localtype on the declaration model", (r[1] if unread(r) else r[2][1]), where(d.gen_local))
+                    return False
+                n += 1
+                if r[0] == "aborts":
+                    bad = bad or "exporting %s aborts (%s)" % (what, r[1])
+                elif r[0] == "Ok":
+                    if ("Static" in r[1]) != (st == "Static"):
+                        bad = bad or "%s is declared with modifiers %s: the `static` storage class %s (a static local keeps its value between calls and is initialised once)" % (
+                            what, r[1], "is dropped" if st == "Static" else "appears from nowhere")
+                    elif c and "Const" not in r[1]:
+                        bad = bad or "%s loses its const" % what
+                    elif hl and r[2] != (st, pr):
+                        bad = bad or "%s is declared with modifiers %s, which the front end reads back as %s" % (what, r[1], r[2])
+        locs[st] = bad
+    for st, bad in sorted(locs.items()):
+        chk.ob("%s/local/%s" % (prefix, st), bad is None, bad or "storage class, precise and const of a %s local survive export" % st, where(d.gen_local), sample={"storage": st})
+    if hl:
+        for st in (f.variants("GlobalStorage", "rssl_ir") or []):
+            bad = None
+            for c in (False, True):
+                r = d.global_(st, c)
+                what = "a %s%s global" % (st, " const" if c else "")
+                if unread(r) or (r[0] == "Ok" and unread(r[2])):
+                    chk.unreadable(prefix + "/global/readable", "generate_global_variable / parse_globaltype on the declaration model", (r[1] if unread(r) else r[2][1]), where(d.gen_global))
+                    return False
+                n += 1
+                if r[0] == "aborts":
+                    bad = bad or "exporting %s aborts (%s)" % (what, r[1])
+                elif r[0] == "Ok":
+                    if r[2] != st:
+                        bad = bad or "%s is declared with modifiers %s, which the front end reads back as storage class %s" % (what, r[1], r[2])
+                    elif c and st != "Extern" and "Const" not in r[1]:
+                        bad = bad or "%s loses its const" % what
+            chk.ob("%s/global/%s" % (prefix, st), bad is None, bad or "storage class and const of a %s global survive export" % st, where(d.gen_global), sample={"storage": st})
+        interps = [None] + (f.variants("InterpolationModifier", "rssl_ir") or [])
+        res = {}
+        for im in (f.variants("InputModifier", "rssl_ir") or []):
+            for ip_ in interps:
+                for pr in (False, True):
+                    r = d.param(im, ip_, pr)
+                    what = "a%s %s parameter%s" % (" precise" if pr else "", im, " with interpolation %s" % ip_ if ip_ else "")
+                    if unread(r) or (r[0] == "Ok" and any(unread(v) for v in r[2].values())):
+                        chk.unreadable(prefix + "/param/readable", "generate_function_param / parse_input_modifier / parse_interpolation_modifier on the declaration model",
+                                       r[1] if unread(r) else [v[1] for v in r[2].values() if unread(v)][0], where(d.gen_param))
+                        return False
+                    n += 1
+                    bad = None
+                    if r[0] == "aborts":
+                        bad = "exporting %s aborts (%s)" % (what, r[1])
+                    elif r[0] == "Ok":
+                        got_im = r[2]["input"] or "In"
+                        if got_im != im:
+                            bad = "%s is declared with modifiers %s, which the front end reads back as an %s parameter" % (what, r[1], got_im)
+                        elif r[2]["interpolation"] != ip_:
+                            bad = "%s is declared with modifiers %s, which the front end reads back with interpolation %s" % (what, r[1], r[2]["interpolation"])
+                        elif ("Precise" in r[1]) != pr:
+                            bad = "%s is declared with modifiers %s: precise %s" % (what, r[1], "is dropped" if pr else "appears from nowhere")
+                    for k in ("input/" + im, "interpolation/" + str(ip_)):
+                        if bad and not res.get(k):
+                            res[k] = bad
+                        res.setdefault(k, None)
+        for k, bad in sorted(res.items()):
+            chk.ob("%s/param/%s" % (prefix, k), bad is None, bad or "survives export and re-reading", where(d.gen_param))
+    chk.floor(prefix.split("/")[0].replace(".refix", "").replace(".decl", "") + ".floor/declarations-" + crate, n, 8 if not hl else 100, "model declarations exported", where(d.gen_local))
+    return True
+
+
 def rule_refix(chk, prefix="C04.refix"):
     """Expression-level fixpoint of DirectX HLSL export (exportmodel.py): every typed expression the typer builds for the
     operators, the ternary, member / swizzle / matrix-swizzle / subscript accesses over a matrix of operand types is
@@ -169,6 +260,7 @@ def run(chk):
     rule_attr(chk)
     rule_reg(chk)
     rule_refix(chk)
+    rule_decl_refix(chk)
     import c09
     import c15
     import interp as I
